@@ -25,6 +25,14 @@ func checkC20(r *Report, p *Program) {
 	optionalDerefs(r, p, "R20.4")
 	hookEnabled(r, p, "R20.5")
 	r20_6(r, p)
+	// Stop leaves nothing of the instance behind: handler timers are stopped before their entry is dropped (C18),
+	// the per-revision hook goroutines are joined before a sync returns (C17)
+	r18_4(r, p)
+	r17_3(r, p)
+	// the constructors and hook builders do not edit the controller object they are given: the reconciler compares
+	// the stored object with the freshly read one to decide whether anything changed
+	r20_7(r, p)
+	r12_10(r, p)
 }
 
 func r20_1(r *Report, p *Program) {
@@ -138,7 +146,7 @@ func r20_1(r *Report, p *Program) {
 		r.Check(rule, FK(inner)+"[table]", p.Pos(inner.Pos()), ok, "equal⇒nothing; changed⇒Stop→delete→construct→Start→store; ctor error⇒returned, nothing started", why)
 		// operands
 		okO, whyO := true, ""
-		for _, b := range inner.Blocks {
+		for _, b := range engine.BlocksInl(inner) {
 			for _, in := range b.Instrs {
 				switch x := in.(type) {
 				case *ssa.MapUpdate:
@@ -234,7 +242,7 @@ func r20_1(r *Report, p *Program) {
 	// single-threaded reconcile assumption: no controller.Options literal sets MaxConcurrentReconciles
 	okM := true
 	for _, f := range p.Scanned {
-		for _, b := range f.Blocks {
+		for _, b := range engine.BlocksInl(f) {
 			for _, in := range b.Instrs {
 				if st, ok := in.(*ssa.Store); ok && strings.HasSuffix(E(st.Addr), ".MaxConcurrentReconciles") {
 					if c, isC := st.Val.(*ssa.Const); !isC || c.Int64() > 1 {
@@ -257,7 +265,7 @@ func r20_2(r *Report, p *Program) {
 			continue
 		}
 		var closeStop, shut, wait ssa.Instruction
-		for _, b := range stop.Blocks {
+		for _, b := range engine.BlocksInl(stop) {
 			for _, in := range b.Instrs {
 				switch x := in.(type) {
 				case *ssa.Call:
@@ -318,7 +326,7 @@ func r20_2(r *Report, p *Program) {
 		// Start: doneCh closed by defer in the goroutine, after wg.Wait over workers
 		var g *ssa.Function
 		for _, cl := range engine.Closures(start) {
-			for _, b := range cl.Blocks {
+			for _, b := range engine.BlocksInl(cl) {
 				for _, in := range b.Instrs {
 					if d, ok := in.(*ssa.Defer); ok && engine.CallKey(d.Common()) == "builtin.close" && strings.HasSuffix(E(d.Common().Args[0]), ".doneCh") {
 						g = cl
@@ -339,7 +347,7 @@ func r20_2(r *Report, p *Program) {
 				if len(callsTo(cl, false, "wait.Until")) == 1 {
 					nw++
 					hasDone := false
-					for _, b := range cl.Blocks {
+					for _, b := range engine.BlocksInl(cl) {
 						for _, in := range b.Instrs {
 							if d, ok := in.(*ssa.Defer); ok && strings.HasSuffix(engine.CallKey(d.Common()), "WaitGroup.Done") {
 								hasDone = true
@@ -360,7 +368,7 @@ func r20_2(r *Report, p *Program) {
 			}
 			if okS {
 				// Add precedes go: the Add call dominates the Go instruction in the loop
-				for _, b := range g.Blocks {
+				for _, b := range engine.BlocksInl(g) {
 					for _, in := range b.Instrs {
 						if gi, isGo := in.(*ssa.Go); isGo {
 							if bypass(g, gi, func(x ssa.Instruction) bool { return isCallTo(x, "sync.WaitGroup.Add") }) != nil {
@@ -473,7 +481,7 @@ func optionalDerefs(r *Report, p *Program, rule string) {
 		if strings.Contains(FK(f), "/v1alpha1.") {
 			continue
 		}
-		for _, b := range f.Blocks {
+		for _, b := range engine.BlocksInl(f) {
 			for _, in := range b.Instrs {
 				// a dereference of v: *v, &v.F, v[i]
 				var ptr ssa.Value
@@ -671,7 +679,7 @@ func hookEnabled(r *Report, p *Program, rule string) {
 		for _, c := range callers {
 			// all reference/call sites of f in c
 			found := false
-			for _, b := range c.Blocks {
+			for _, b := range engine.BlocksInl(c) {
 				for _, ins := range b.Instrs {
 					refs := false
 					for _, op := range ins.Operands(nil) {
@@ -738,7 +746,7 @@ func hookEnabled(r *Report, p *Program, rule string) {
 	// IsEnabled ⇔ executor present
 	if f := fn(r, p, rule, "hooks.hookExecutorImpl.IsEnabled"); f != nil {
 		ok := false
-		for _, b := range f.Blocks {
+		for _, b := range engine.BlocksInl(f) {
 			for _, ins := range b.Instrs {
 				if rt, isR := ins.(*ssa.Return); isR {
 					s := E(rt.Results[0])
@@ -754,7 +762,7 @@ func lookThrough(f *ssa.Function) *ssa.Function {
 	for i := 0; i < 3 && f != nil && f.Synthetic != "" && f.Syntax() == nil; i++ {
 		var callee *ssa.Function
 		n := 0
-		for _, b := range f.Blocks {
+		for _, b := range engine.BlocksInl(f) {
 			for _, in := range b.Instrs {
 				if ci, ok := in.(ssa.CallInstruction); ok {
 					if t := engine.StaticFn(ci.Common()); t != nil {
@@ -798,4 +806,44 @@ func r20_6(r *Report, p *Program) {
 		}
 	}
 	r.Check(rule, FK(f), p.Pos(f.Pos()), ok, "Register ⇔ cache miss", why)
+}
+
+// r20_7: "unchanged spec ⇒ instance kept" is decided by comparing the stored
+// controller object with the one just read. Anything that defaults or normalises
+// fields IN PLACE in the stored object (an invalid timeout rewritten to 10s) makes
+// the two differ for ever: every no-op update stops and restarts the instance.
+func r20_7(r *Report, p *Program) {
+	const rule = "R20.7"
+	r.Rule(rule, "newParentController/newDecoratorController, hooks.NewHook and the webhook builders never mutate (transitively) the controller object / Hook / Webhook they are handed")
+	r.Floor(rule, 4)
+	type tgt struct {
+		key string
+		par int
+	}
+	for _, t := range []tgt{{"controller/composite.newParentController", 6}, {"controller/decorator.newDecoratorController", 5},
+		{"hooks.NewHook", 0}, {"hooks.NewWebhookExecutor", 0}, {"hooks.webhookTimeout", 0}, {"hooks.webhookURL", 0}} {
+		f := p.Func(t.key)
+		if f == nil {
+			r.Fail(rule, t.key, "-", "anchor-lost", "function not found")
+			continue
+		}
+		// the parameter that carries the API object: by type
+		idx := -1
+		for i, prm := range f.Params {
+			ts := prm.Type().String()
+			if strings.HasSuffix(ts, "v1alpha1.CompositeController") || strings.HasSuffix(ts, "v1alpha1.DecoratorController") || strings.HasSuffix(ts, "v1alpha1.Hook") || strings.HasSuffix(ts, "v1alpha1.Webhook") {
+				idx = i
+			}
+		}
+		if idx < 0 {
+			r.Fail(rule, t.key, p.Pos(f.Pos()), "anchor-lost", "no controller/Hook/Webhook parameter")
+			continue
+		}
+		muts := p.Mutations(f, f.Params[idx])
+		why := ""
+		if len(muts) > 0 {
+			why = sf("the %s it is given is modified in place (%s at %s): the stored controller object then differs from the API object it was read from, so the reconciler's 'spec unchanged' comparison fails on every event and the running instance is stopped and restarted each time", E(f.Params[idx]), muts[0].What, p.InstrPos(muts[0].Instr))
+		}
+		r.Check(rule, FK(f)+"[spec-unmodified]", p.Pos(f.Pos()), len(muts) == 0, "the configuration object is only read", why)
+	}
 }
